@@ -32,6 +32,11 @@ type MyFloat32 float32
 type MyFloat64 float64
 type MyBool bool
 type MyString string
+type MyIntB int
+type MyInt64B int64
+type MyFloat64B float64
+type MyBoolB bool
+type MyStringB string
 type MyErr struct{}
 type MyStruct struct{ A int }
 type MyChan chan error
@@ -48,6 +53,8 @@ var typeCatalogue = map[string]reflect.Type{
 	"MyInt": reflect.TypeOf(MyInt(0)), "MyInt8": reflect.TypeOf(MyInt8(0)), "MyInt16": reflect.TypeOf(MyInt16(0)),
 	"MyInt32": reflect.TypeOf(MyInt32(0)), "MyInt64": reflect.TypeOf(MyInt64(0)), "MyFloat32": reflect.TypeOf(MyFloat32(0)),
 	"MyFloat64": reflect.TypeOf(MyFloat64(0)), "MyBool": reflect.TypeOf(MyBool(false)), "MyString": reflect.TypeOf(MyString("")),
+	"MyIntB": reflect.TypeOf(MyIntB(0)), "MyInt64B": reflect.TypeOf(MyInt64B(0)), "MyFloat64B": reflect.TypeOf(MyFloat64B(0)),
+	"MyBoolB": reflect.TypeOf(MyBoolB(false)), "MyStringB": reflect.TypeOf(MyStringB("")),
 	"MyErr": reflect.TypeOf(MyErr{}), "MyStruct": reflect.TypeOf(MyStruct{}), "[]int": reflect.TypeOf([]int{}),
 	"*int": reflect.TypeOf((*int)(nil)), "chan error": reflect.TypeOf((chan error)(nil)),
 	"<-chan error": reflect.TypeOf((<-chan error)(nil)), "chan<- error": reflect.TypeOf((chan<- error)(nil)),
@@ -56,15 +63,16 @@ var typeCatalogue = map[string]reflect.Type{
 
 var paramTypeIDs = []string{"int", "int8", "int16", "int32", "int64", "float32", "float64", "bool", "string",
 	"MyInt", "MyInt8", "MyInt16", "MyInt32", "MyInt64", "MyFloat32", "MyFloat64", "MyBool", "MyString",
+	"MyIntB", "MyInt64B", "MyFloat64B", "MyBoolB", "MyStringB",
 	"uint", "MyStruct", "[]int", "*int", "any", "error"}
-var resultTypeIDs = []string{"int", "int64", "float32", "float64", "bool", "string", "MyInt", "MyFloat64", "MyBool", "MyString",
+var resultTypeIDs = []string{"int", "int64", "float32", "float64", "bool", "string", "MyInt", "MyFloat64", "MyBool", "MyStringB",
 	"error", "MyErr", "MyStruct", "uint", "[]int", "chan error", "<-chan error", "chan<- error", "MyChan", "chan int", "chan MyErr"}
 
 func ids(r *rand.Rand, from []string, n int, good int) []*sx.Node {
 	out := []*sx.Node{}
 	for i := 0; i < n; i++ {
 		if r.Intn(100) < good {
-			out = append(out, sx.Str(from[r.Intn(18)%len(from)])) // the bridgeable head of the list
+			out = append(out, sx.Str(from[r.Intn(23)%len(from)])) // the bridgeable head of the list
 		} else {
 			out = append(out, sx.Str(from[r.Intn(len(from))]))
 		}
@@ -154,6 +162,9 @@ func genBridge(r *rand.Rand, tier string) *sx.Node {
 func argFor(r *rand.Rand, typeID string) *sx.Node {
 	k := strings.TrimPrefix(typeID, "My")
 	k = strings.ToLower(k)
+	if strings.HasSuffix(typeID, "B") {
+		k = strings.TrimSuffix(k, "b")
+	}
 	switch {
 	case strings.HasPrefix(k, "int8"):
 		return numLit(float64(r.Intn(250)-125) + []float64{0, 0.5}[r.Intn(2)])
